@@ -229,6 +229,7 @@ inductive Exn
   | fuel
   | blocked                 -- the loop would sleep for ever (no other thread in the model)
   | unregistrable
+  | inadmissible            -- register(c, p) outside the property's precondition
   | apiRaised               -- an external API call (removeHandler, …) raised in the caller's frame
   deriving DecidableEq, Repr
 
